@@ -12,6 +12,7 @@ from deepali.losses import functional as L
 from deepali.losses import image as M
 
 torch.set_default_dtype(torch.float64)
+torch.set_num_threads(1)
 
 
 def err(e):
@@ -42,7 +43,12 @@ def run_case(c):
             kw["delta"] = c["param"]
         if c["fn"] == "smooth_l1":
             kw["beta"] = c["param"]
-        r = getattr(L, PW[c["fn"]])(x, y, **kw)
+        if c.get("module"):
+            cls = M.HuberImageLoss if c["fn"] == "huber" else M.SmoothL1ImageLoss
+            arg = {"delta": c["param"]} if c["fn"] == "huber" else {"beta": c["param"]}
+            r = cls(norm=c.get("norm") if c.get("norm") is not None else False, **arg)(x, y, T(c.get("mask")))
+        else:
+            r = getattr(L, PW[c["fn"]])(x, y, **kw)
     elif k == "ncc":
         r = L.ncc_loss(x, y, epsilon=c["eps"], reduction=c["reduction"])
     elif k == "lcc":
@@ -55,8 +61,8 @@ def run_case(c):
         r = f(x, y, weight=T(c.get("mask")), epsilon=c["eps"], reduction=c["reduction"])
     elif k == "tversky":
         if c.get("loss"):
-            r = L.tversky_loss(x, y, weight=T(c.get("mask")), alpha=c["alpha"], beta=c["beta"], epsilon=c["eps"],
-                               reduction=c["reduction"])
+            r = L.tversky_loss(x, y, weight=T(c.get("mask")), alpha=c["alpha"], beta=c["beta"], gamma=c.get("gamma"),
+                               epsilon=c["eps"], reduction=c["reduction"])
         else:
             r = L.tversky_index(x, y, weight=T(c.get("mask")), alpha=c["alpha"], beta=c["beta"], epsilon=c["eps"],
                                 reduction=c["reduction"])
@@ -363,6 +369,26 @@ def oracle_overlap(rng, n, R):
                 if not close(fn(soft_p, soft_t, weight=ww, epsilon=eps, reduction="mean"), none.mean(), 1e-6) or \
                         not close(fn(soft_p, soft_t, weight=ww, epsilon=eps, reduction="sum"), none.sum(), 1e-6):
                     R.fail(f"C16:{fname}:reduction", "mean/sum are not the mean/sum of 'none'", **base)
+            # tversky_loss: (1 - index)^gamma, gamma < 1 rejected, and the documented Dice clause through tversky_loss itself
+            for g_ in (None, 1, 2, 3.0):
+                tlg = R.guard("C16:tversky_loss:raises", base, lambda: L.tversky_loss(soft_p, soft_t, weight=ww, alpha=0.3, beta=0.7, gamma=g_, epsilon=eps, reduction="none"))
+                tig = R.guard(kt, base, lambda: L.tversky_index(soft_p, soft_t, weight=ww, alpha=0.3, beta=0.7, epsilon=eps, reduction="none"))
+                if tlg is not None and tig is not None and not close(tlg, (1 - tig) ** (g_ or 1), 1e-5):
+                    R.fail("C16:tversky_loss:gamma", f"tversky_loss(gamma={g_}) != (1 - tversky_index)^gamma", gamma=g_, **base)
+            try:
+                L.tversky_loss(soft_p, soft_t, gamma=0.5, epsilon=eps)
+                R.fail("C16:tversky_loss:gamma-below-one-accepted", "gamma = 0.5 accepted (documented: gamma >= 1)", **base)
+            except ValueError:
+                pass
+            except Exception as e:  # noqa
+                R.fail("C16:tversky_loss:raises", f"gamma=0.5 raises {type(e).__name__} instead of ValueError", **base)
+            a = R.guard("C16:tversky_loss:raises", base, lambda: L.tversky_loss(p, t, weight=ww, alpha=0.5, beta=0.5, epsilon=eps, reduction="none"))
+            b = R.guard("C16:dice_loss:raises", base, lambda: L.dice_loss(p, t, weight=ww, epsilon=2 * eps, reduction="none"))
+            if a is not None and b is not None and not close(a, b, 1e-5):
+                R.fail("C16:tversky_loss:half-not-dice-loss", "tversky_loss(1/2, 1/2, eps) != dice_loss(2 eps) on binary inputs", **base)
+            a0 = R.guard("C16:tversky_loss:raises", base, lambda: L.tversky_loss(p, p, weight=ww, alpha=0.3, beta=0.7, gamma=2, epsilon=eps, reduction="none"))
+            if a0 is not None and not close(a0, torch.zeros_like(a0), 1e-5):
+                R.fail("C16:tversky_loss:identical-not-zero", "tversky_loss(p, p) != 0 on binary input", **base)
             # tversky_loss = 1 - tversky_index
             tl = R.guard("C16:tversky_loss:raises", base, lambda: L.tversky_loss(soft_p, soft_t, weight=ww, alpha=0.3, beta=0.7, epsilon=eps, reduction="none"))
             ti = None
@@ -479,6 +505,14 @@ def oracle_modules(rng, n, R):
             if not close(a, b, 1e-6):
                 R.fail("C16:NormalizedPairwiseImageLoss:default-norm", f"default norm: {float(a):.6g} vs ssd / max_difference^2 = {float(b):.6g}", **base)
         xm, ym = rnd(rng, [N, 1] + [s + 3 for s in sp], 0, 1), rnd(rng, [N, 1] + [s + 3 for s in sp], 0, 1)
+        R.tick("modules")
+        try:
+            if close(M.NMI(num_bins=16)(xm, ym), M.MI(num_bins=16)(xm, ym), 1e-9):
+                R.fail("C16:NMI.forward:option-not-passed", "NMI module returns the value of the MI module", x=spec(xm), y=spec(ym))
+            if not M.NMI().normalized or M.MI().normalized:
+                R.fail("C16:NMI.forward:option-not-passed", "NMI().normalized / MI().normalized flags are wrong")
+        except Exception as e:  # noqa
+            R.fail("C16:NMI.forward:raises", f"raises {type(e).__name__}: {str(e)[:120]}")
         for name, mod, fun in (("MI", lambda: M.MI(bins=16)(xm, ym), lambda: L.mi_loss(xm, ym, num_bins=16)),
                                ("NMI", lambda: M.NMI(num_bins=16)(xm, ym), lambda: L.nmi_loss(xm, ym, num_bins=16))):
             R.tick("modules")
@@ -512,6 +546,7 @@ def raises_table():
     calls = {
         "tversky_index_binary_weight": lambda: L.tversky_index(x, y, weight=w, epsilon=0.1),
         "tversky_loss": lambda: L.tversky_loss(x, y, epsilon=0.1),
+        "tversky_loss_gamma_half": lambda: L.tversky_loss(x, y, gamma=0.5, epsilon=0.1),
         "ncc_loss_mask": lambda: L.ncc_loss(x, y, mask=w, epsilon=0.1),
         "dice_score_weight": lambda: L.dice_score(x, y, weight=w, epsilon=0.1),
         "lcc_loss_mask": lambda: L.lcc_loss(x, y, mask=w, kernel_size=3, epsilon=0.1),
